@@ -869,8 +869,8 @@ func C10(ctx *core.Ctx) error {
 	// design model and toy binding in the background
 	var mcGroups []pcMCGroup
 	var mcErr error
-	var toyRes, selfRes pcTraceResult
-	var toyErr, selfErr error
+	var toyRes pcTraceResult
+	var toyErr error
 	var gen *pcToyGen
 	var wg sync.WaitGroup
 	wg.Add(2)
@@ -879,18 +879,7 @@ func C10(ctx *core.Ctx) error {
 		defer wg.Done()
 		gen = newPcToyGen(ctx.Seed*31 + 10)
 		gen.honest(ctx.Pick(24, 120))
-		var wg2 sync.WaitGroup
-		wg2.Add(2)
-		go func() { defer wg2.Done(); toyRes, toyErr = pcValidate(gen.lines, -1, 30*time.Minute) }()
-		go func() { // self test: one corrupted vector entry must be noticed
-			defer wg2.Done()
-			n := len(gen.lines)
-			if n > 6 {
-				n = 6
-			}
-			selfRes, selfErr = pcValidate(gen.lines[:n], n-1, 15*time.Minute)
-		}()
-		wg2.Wait()
+		toyRes, toyErr = pcValidate(gen.lines, 30*time.Minute)
 	}()
 
 	rows, genRes, err := c10Rows()
@@ -944,12 +933,6 @@ func C10(ctx *core.Ctx) error {
 	if toyErr != nil {
 		return core.Inconcl("toy binding machinery failed: %v", toyErr)
 	}
-	if selfErr != nil {
-		return core.Inconcl("toy binding self test failed to run: %v", selfErr)
-	}
-	if selfRes.Accepted {
-		return core.Inconcl("self test: TLC accepted a toy transcript whose vector the harness had corrupted - the binding is not effective")
-	}
 	toyOut := map[string]int{}
 	toyMismatch := 0
 	for _, l := range gen.lines {
@@ -962,6 +945,9 @@ func C10(ctx *core.Ctx) error {
 	if !toyRes.Accepted {
 		return core.Inconcl("Proofs_Trace.tla does not explain toy line %d of %d: %s - the specification and the code (or the harness's transcription) disagree on a toy-sized honest transcript",
 			toyRes.FailLine, toyRes.Lines, core.Short(toyRes.FailText, 300))
+	}
+	if !toyRes.SelfTest {
+		return core.Inconcl("self test: TLC did not refuse the toy transcript whose vector the harness had corrupted - the binding is not effective")
 	}
 	cov.AddTraces(toyRes.Lines)
 	if mcErr != nil {
@@ -989,7 +975,7 @@ func C10(ctx *core.Ctx) error {
 	cov.Set("toy_prover_no_proof", gen.skips)
 	cov.Set("toy_twin_vs_real_mismatches", toyMismatch)
 	cov.Set("toy_trace_tlc_wall_s", toyRes.Res.Wall)
-	cov.Set("self_test_corrupted_line_rejected_at", selfRes.FailLine)
+	cov.Set("self_test_corrupted_line_refused", toyRes.SelfTest)
 	cov.Set("exhaustive", false)
 	return ctx.WriteEvidence("model_checking",
 		"one case = one catalogue row generated by TLC (spec/ProofsGen.tla: system, admissible witness class, session class, curve) concretised at real size with "+
